@@ -10,17 +10,22 @@
     [decode_commitment_tx] and [sign_counterparty_commitment_tx] answered. *)
 From Coq Require Import List NArith ZArith Bool.
 From VLS Require Import Base.Codec Base.Ripemd160 Model.Commitment.
-From VLS Require Base.Sha256 Base.Eqb.
+From VLS Require Base.Sha256 Base.Sha256Fast Base.Eqb.
 Import ListNotations.
 Open Scope N_scope.
 
-Definition sha : bytes -> bytes := Sha256.sha256.
+(** [Sha256Fast.sha256] is [Sha256.sha256] on primitive integers (validated against it and
+    against the FIPS vectors in Base/Sha256Fast.v) *)
+Definition sha : bytes -> bytes := Sha256Fast.sha256.
 Definition rip : bytes -> bytes := ripemd160.
 
 (** [PublicKey::from_slice] as a table computed by the harness with libsecp256k1: every data
     push of every witness script of the case that parses as a point, with its compressed form *)
 Definition oracle_parse (tbl : list (bytes * bytes)) (d : bytes) : option bytes :=
   match find (fun p => bytes_eqb (fst p) d) tbl with Some p => Some (snd p) | None => None end.
+(** entries whose encoding is already the compressed one are listed once *)
+Definition oracle_of (same : list bytes) (other : list (bytes * bytes)) : list (bytes * bytes) :=
+  map (fun x => (x, x)) same ++ other.
 
 (** ** pass A *)
 Definition gen_case : Type := setup * ckeys * content.
@@ -55,7 +60,9 @@ Inductive mutation :=
 | MValue (k : nat) (v : N) | MSpk (k : nat) (b : bytes) | MSpkByte (k j : nat) (b : N)
 | MWs (k : nat) (b : bytes) | MWsByte (k j : nat) (b : N)
 | MDropOut (k : nat) | MDupOut (k : nat) | MSwapOut (i j : nat) | MSwapWs (i j : nat)
-| MDropWs (k : nat) | MAddWs (b : bytes) | MAddOut (v : N) (spk ws : bytes).
+| MDropWs (k : nat) | MAddWs (b : bytes) | MAddOut (v : N) (spk ws : bytes)
+| MSpkFix (k : nat)               (* script_pubkey k := p2wsh (witness script k) *)
+| MWsTrunc (k : nat) | MWsPush (k : nat) (b : N) | MWsInsert (k j : nat) (b : N).
 
 Fixpoint set_nth {A} (k : nat) (f : A -> A) (l : list A) : list A :=
   match l, k with
@@ -113,6 +120,14 @@ Definition apply_mut (m : mutation) (p : tx * list bytes) : tx * list bytes :=
   | MDropWs k => (t, drop_nth k ws)
   | MAddWs b => (t, ws ++ [b])
   | MAddOut v spk w => (on_outs (fun l => l ++ [mkOut v spk]) t, ws ++ [w])
+  | MSpkFix k =>
+      match nth_error ws k with
+      | Some w => (on_outs (set_nth k (fun o => mkOut (o_value o) (p2wsh sha w))) t, ws)
+      | None => (t, ws)
+      end
+  | MWsTrunc k => (t, set_nth k (fun w => removelast w) ws)
+  | MWsPush k b => (t, set_nth k (fun w => w ++ [b]) ws)
+  | MWsInsert k j b => (t, set_nth k (fun w => firstn j w ++ b :: skipn j w) ws)
   end.
 
 (** observation of [CommitmentInfo] after [decode_commitment_tx] *)
@@ -125,39 +140,75 @@ Definition obs_of_info (i : info) : info_obs :=
 Import Eqb.
 #[global] Instance Eqb_bytes : Eqb bytes := bytes_eqb.
 
-(** one mutant: the mutations (applied left to right), whether the lengths allowed the harness
-    to call [decode_commitment_tx] and what it answered, and whether phase 1 signed *)
-Definition mutant : Type := list mutation * option info_obs * bool.
+(** one mutant: the mutations (applied left to right); what [decode_commitment_tx] answered, as
+    an index into the case's table of distinct observations ([None]: refused, or the lengths
+    differ, in which case the harness does not call it); the
+    validator's verdict on the content read from the mutant (the model's [accept] at that
+    content; [false] when nothing decoded); whether phase 1 signed *)
+Definition mutant : Type := list mutation * option nat * bool * bool.
 
 Record ccase := mkCase {
   cc_setup : setup;
   cc_keys : ckeys;
   cc_content : content;
   cc_value_ok : bool;
-  cc_accept : bool;                      (* did the semantic entry point sign this content *)
   cc_oracle : list (bytes * bytes);
+  cc_obs : list info_obs;
   cc_mutants : list mutant;
 }.
 
-Definition model_mutant (cc : ccase) (ms : list mutation) : option info_obs * bool :=
+(** SHA-256 with a table of digests computed once per case (by [sha] itself, inside
+    the same evaluation): the canonical witness scripts and keys are hashed again for every
+    mutant otherwise *)
+Definition sha_memo (tbl : list (bytes * bytes)) (x : bytes) : bytes :=
+  match find (fun p => bytes_eqb (fst p) x) tbl with
+  | Some p => snd p
+  | None => sha x
+  end.
+Definition memo_table (l : list bytes) : list (bytes * bytes) :=
+  map (fun x => (x, sha x)) l.
+Definition rip_memo (tbl : list (bytes * bytes)) (x : bytes) : bytes :=
+  match find (fun p => bytes_eqb (fst p) x) tbl with
+  | Some p => snd p
+  | None => ripemd160 x
+  end.
+
+Definition model_mutant (cc : ccase) (sh rp : bytes -> bytes) (base : tx * list bytes)
+  (ms : list mutation) (acc : bool) : option info_obs * bool :=
   let s := cc_setup cc in
   let k := cc_keys cc in
   let c := cc_content cc in
   let pk := oracle_parse (cc_oracle cc) in
-  let '(t, ws) := fold_left (fun p m => apply_mut m p) ms (canon_tx sha rip s k c, canon_ws sha rip s k c) in
+  let '(t, ws) := fold_left (fun p m => apply_mut m p) ms base in
   let d := if Nat.eqb (length (t_outs t)) (length ws)
-           then option_map obs_of_info (decode sha pk s t ws) else None in
-  let r := sign_phase1 sha rip pk s k bytes bytes (fun _ d => d) [] (cc_value_ok cc)
-                       (fun _ => cc_accept cc) t ws (c_num c) (c_feerate c) (c_offered c) (c_received c) in
+           then option_map obs_of_info (decode sh pk s t ws) else None in
+  let r := sign_phase1 sh rp pk s k bytes bytes (fun _ d => d) [] (cc_value_ok cc)
+                       (fun _ => acc) t ws (c_num c) (c_feerate c) (c_offered c) (c_received c) in
   (d, match r with Ok _ => true | Refused => false end).
 
-Definition check_mutant (cc : ccase) (m : mutant) : bool :=
-  let '(ms, d, ok) := m in
-  let '(d', ok') := model_mutant cc ms in
+Definition check_mutant (cc : ccase) (sh rp : bytes -> bytes) (base : tx * list bytes) (m : mutant)
+  : bool :=
+  let '(ms, di, acc, ok) := m in
+  let d := match di with Some i => nth_error (cc_obs cc) i | None => None end in
+  let '(d', ok') := model_mutant cc sh rp base ms acc in
   beq d d' && Bool.eqb ok ok'.
 
-Definition check_case (cc : ccase) : bool := forallb (check_mutant cc) (cc_mutants cc).
+Definition case_env (cc : ccase) : (bytes -> bytes) * (bytes -> bytes) * (tx * list bytes) :=
+  let s := cc_setup cc in
+  let k := cc_keys cc in
+  let c := cc_content cc in
+  let ws := canon_ws sha rip s k c in
+  let tbl := memo_table (ws ++ [k_revocation k; s_holder_payment s]) in
+  let sh := sha_memo tbl in
+  let rtbl := map (fun x => (x, ripemd160 x))
+                  (sh (k_revocation k) :: sh (s_holder_payment s)
+                   :: map h_hash (c_offered c ++ c_received c)) in
+  (sh, rip_memo rtbl, (canon_tx sh rip s k c, ws)).
 
-(** index of the first mutant on which model and implementation differ (for the replay) *)
-Definition first_bad (cc : ccase) : list N :=
-  failures (check_mutant cc) (cc_mutants cc).
+(** indices of the mutants on which model and implementation differ *)
+Definition bad_mutants (cc : ccase) : list N :=
+  let '(sh, rp, base) := case_env cc in
+  failures (check_mutant cc sh rp base) (cc_mutants cc).
+
+Definition check_case (cc : ccase) : bool :=
+  match bad_mutants cc with [] => true | _ => false end.
